@@ -7,6 +7,7 @@ W2 splitting discipline: 1.0 is added once for a single feature; 1/k is added on
 W3 confirmation: unique + spliced corrected alignment always confirms; only unconfirmed features are zeroed
 """
 import ast
+import re
 import itertools
 
 from ..engine.program import AnalysisError, dotted, src, walk_no_nested, call_name
@@ -311,8 +312,14 @@ def w3(prog, ctx):
         ctx.fail("W3", d, d._qualname, "zeroing", "expected exactly one statement zeroing counts in dump()")
     else:
         facts = flow.guard_facts(zero[0], stop=d)
-        okz = any((not pol) and src(t) == "feature_id in self.confirmed_features" for t, pol in facts) or \
-            any(pol and src(t) == "feature_id not in self.confirmed_features" for t, pol in facts)
+        # which feature's cells are zeroed: the key K of self.feature_counter[K] in the (alias-resolved) target
+        from ..engine.dataflow import single_def_env
+        tgt_txt = src(symexec.subst(zero[0].targets[0], single_def_env(d)))
+        mk = re.search(r"self\.feature_counter\[(\w+)\]", tgt_txt)
+        fk = mk.group(1) if mk else None
+        okz = fk is not None and any(
+            isinstance(t, ast.Compare) and len(t.ops) == 1 and src(t.left) == fk and src(t.comparators[0]) == "self.confirmed_features"
+            and ((isinstance(t.ops[0], ast.In) and not pol) or (isinstance(t.ops[0], ast.NotIn) and pol)) for t, pol in facts)
         if not okz:
             ctx.fail("W3", zero[0], d._qualname, src(zero[0]), "counts are zeroed for features that may be confirmed")
         else:
